@@ -9,8 +9,8 @@ estimate_spelling / estimate_voices / estimate_key / load_score_midi.
 Oracle (the statement, clause by clause; reference code in mc/c17_ref.py):
   spelling   every row gets step in A..G, integer alter with |alter| <= 2, integer octave and
              12*(octave+1) + pc(step) + alter == MIDI pitch; for every permutation of the rows the
-             multiset of spellings given to equal rows is the same (rows that are equal cannot be
-             told apart, so they are compared as a multiset); same input twice -> same output.
+             multiset of spellings given to rows of equal (onset, pitch) is the same (such rows
+             cannot be told apart, so they are compared as a multiset); same input twice -> same output.
   voices     a 1-d integer array with one entry per row, all >= 1, set of values = {1..k}; with
              monophonic_voices=False rows with identical (onset, duration) have equal voices.
   key        a valid key name; where the Krumhansl-Schmuckler winner is defined (pitch-class
@@ -44,7 +44,7 @@ RULE = (
     "non-trivial = more than one row, or (key) a defined winner, or (importer) an estimation option on"
 )
 ASSUMPTIONS = [
-    "rows with equal (onset, duration, pitch) are indistinguishable: order independence of spelling is compared per multiset of equal rows",
+    "rows with equal (onset, pitch) are indistinguishable for pitch spelling: order independence is compared per multiset of such rows",
     "key: 'the estimated key' is defined only where the best profile correlation is finite and exceeds the second best by 1e-9 in the exact reference (1e-4 for the layout with inexact float32 durations); elsewhere only the validity of the name is asserted",
     "key: profile tables are data read from partitura.utils.globals; the reference correlation is computed independently in exact arithmetic; profile names used are the ones accepted by both estimate_key and ks_kid (krumhansl_kessler, temperley, kostka_payne, kp, default)",
     "key: duration rescaling uses exactly representable factors (1/4, 1/2, 2, 3) so that float32 columns stay exact",
@@ -91,7 +91,8 @@ def _check_spelling(res, sp, prows, ctx):
         if abs(a) > 2:
             res.fail("spelling-at-most-double-accidental", expected="|alter| <= 2", observed=dict(step=step, alter=a, octave=o),
                      where="estimate_spelling", detail="%s row %d" % (ctx, i))
-        by.setdefault(tuple(row), []).append((step, a, o))
+        # ps13 sees onset and pitch only: rows equal in both are indistinguishable to it
+        by.setdefault((row[0], row[2]), []).append((step, a, o))
     return {k: sorted(v) for k, v in by.items()}
 
 
